@@ -202,6 +202,7 @@ func (e *symEval) assign(lhs ast.Expr, v symVal) bool {
 
 // run executes the statement list; returns false when it met the tail.
 func (e *symEval) run(stmts []ast.Stmt) {
+	stmts = stripNoops(stmts)
 	for i, st := range stmts {
 		if e.fail != "" {
 			return
@@ -246,7 +247,7 @@ func (e *symEval) run(stmts []ast.Stmt) {
 				return
 			}
 			hx, ok := nilCompare(e.f, cond, token.NEQ)
-			isHit := ok && els == nil && len(body) == 1
+			isHit := ok && len(body) == 1
 			if isHit {
 				if id, ok := ast.Unparen(hx).(*ast.Ident); !ok || id.Name != e.hvar {
 					isHit = false
@@ -257,6 +258,11 @@ func (e *symEval) run(stmts []ast.Stmt) {
 				if ok && len(rs.Results) == 2 && e.f.Norm(rs.Results[1], nil) == "true" {
 					if id, ok := ast.Unparen(rs.Results[0]).(*ast.Ident); ok && id.Name == e.hvar && len(e.lookups) > 0 {
 						e.lookups[len(e.lookups)-1].onHit = true
+						if els != nil {
+							// if h != nil { return h, true } else { rest }: the rest runs exactly when the hit did not return
+							e.run(append(append([]ast.Stmt(nil), els...), stmts[i+1:]...))
+							return
+						}
 						continue
 					}
 				}
